@@ -176,6 +176,8 @@ def run(ctx, F):
     ctx.trusted += ["rustc MIR via mirfacts", "mirsym", "batching rules of docs/src/design/programs.md and the NOOP alignment rules of docs/src/design/decoder/main.md"]
     ctx.assumptions += ["contents of decoder columns on concrete runs are not decided; the executor is interpreted abstractly on the batch of every reachable accumulator state "
                         "(quick: layouts reachable within 26 operations; thorough: all)"]
+    from . import rules_c06
+    ctx.run_rule("C13-R1b", "the executed branch is a legal decision of the program: a path a non-binary SPLIT / LOOP condition can take ends in Err(NotBinaryValue) before any child block is executed (path model shared with C06-R1)", rules_c06.r1_three_way, F)
     ctx.run_rule("C13-R1", "every Decoder::start_* pushes the block stack once and appends one row, every end_* pops once and appends one row; repeat/respan/execute_user_op append one row; executors start before children and end once", r1_nesting, F)
     ctx.run_rule("C13-R2", "every decoder row is paired with exactly one execute_op which advances the clock once (shared with C15-R2)", rules_c15.r2_every_cycle, F)
     ctx.run_rule("C13-R2b", "decoder wrappers run one execute_op per row", rules_c15.r2b_calls_in_decoder, F)
